@@ -93,7 +93,7 @@ def r92_r93(repo, ctx, index):
                       f'caching {"on: insert does not store" if flag else "off: insert still stores the value"}', construct=f'addToHashTable[_cache={flag}]')
     # flag domain: only booleans are ever assigned
     fw = index.field_writes(key, include_mro=False).get('_cache', [])
-    vals = [U.src(st.value) for (_, _, st, _) in fw if isinstance(st, ast.Assign)]
+    vals = [U.src(st.value) for (_, _, st, _) in fw if isinstance(st, (ast.Assign, ast.AnnAssign)) and st.value is not None]
     en = repo.func(DP, 'HashTable.enableCaching')
     ok = all(v in ('True', 'False') or v == U.params(en)[1] for v in vals)
     ctx.check(ok and len(vals) >= 2, 'R9.2', DP, 'HashTable', fw[0][2] if fw else 0, f'the cache flag is assigned only booleans ({vals})', f'the cache flag is assigned non-boolean values {vals}', construct=f'_cache <- {vals}')
